@@ -234,6 +234,14 @@ func RunCheck(cfg CheckConfig) int {
 		}
 		P.Params = params
 		nat.Params = encodeParams(params)
+		// harnesses that do not explore schedules are executed run-to-completion by the executor
+		// (a spawned goroutine runs when the current one blocks, finishes or drains); one OS
+		// thread gives the native replay the same discipline, so that assertions about "what has
+		// happened by now" do not depend on the load of the machine
+		nat.BaseEnv = nil
+		if !hd.Sched {
+			nat.BaseEnv = []string{"GOMAXPROCS=1"}
+		}
 		depth, loop, maxp := hd.Depth, hd.Loop, hd.MaxPaths
 		if depth == 0 {
 			depth = 150
